@@ -6,7 +6,7 @@ use crate::ozone::{self, Fwd, ZoneModel};
 use crate::run::*;
 use proptest::prelude::*;
 use serde::{Deserialize, Serialize};
-use serde_json::{json, Value};
+use serde_json::Value;
 use tz::error::timezone::{LocalTimeTypeError as LE, TimeZoneError as ZE};
 use tz::timezone::{LocalTimeType, TimeZone, TimeZoneRef};
 use tz::TzError;
@@ -322,7 +322,7 @@ pub fn arb_defect() -> SBoxedStrategy<Defect> {
 pub fn run(ctx: &Ctx) -> Outcome {
     let mut out = Outcome::new(
         "Valid zones by construction (6 shapes, +-leap table, i64-wide times, full-i32 offsets, value-equal types in different slots) through both constructors, then exactly one defect of 10 classes (no types; index = len / usize::MAX; equal / inverted times; first leap time -1; first correction 0/+-2/extremes; later step 0/+-2; spacing one second short; last type differing from the rule's in exactly one of offset/flag/designation); \
-         random multi-defect tuples; an enumeration of two-record leap tables around the minimal spacing up to i64::MAX; LocalTimeType::new over every byte value at every position for lengths 3..7, lengths 0..10 and offset i32::MIN. \
+         random multi-defect tuples; an enumeration of two-record leap tables around the minimal spacing up to i64::MAX; LocalTimeType::new over every byte value at every position for lengths 3..7, every length 0..=1100 plus 4096 / 65535..65543 / 2^20, and offset i32::MIN. \
          Oracle: validity predicate transcribed from the property (O-leap, O-rule). Specific error asserted when exactly one clause is violated, membership in the violated set otherwise. Non-trivial: any refused tuple, or an accepted zone with >= 2 transitions and a trailer.",
     );
     out.assumptions = vec![
@@ -430,7 +430,8 @@ pub fn run(ctx: &Ctx) -> Outcome {
     }
     // LocalTimeType::new
     let rs = par_shards(1, |_, st| {
-        for len in 0..=10usize {
+        // every length up to 1100 bytes (beyond any one-byte or two-byte length counter's wrap), then a few much longer ones
+        for len in (0..=1100usize).chain([4096, 65_535, 65_536, 65_539, 65_543, 1 << 20]) {
             let n = vec![b'A'; len];
             for off in [0, i32::MIN, i32::MAX, i32::MIN + 1] {
                 check_enum("ltt", &(off, Some(n.clone())), st, |c, st| check_ltt(c.0, c.1.as_deref(), st))?;
